@@ -82,3 +82,47 @@ def concat_terms(e) -> List[str]:
             out.append(A.norm(x))
     rec(e)
     return out
+
+
+def list_terms(fn, name: str):
+    """ordered terms [(kind, expr)] of the list variable `name` at the end of fn, whatever style builds it:
+    `name = a + [b]`, `name = []; name.extend(a); name.append(b)`, `name += a`.  kind is 'list' (a list-valued term) or
+    'item' (a single element).  None when `name` is bound in a way that is not understood."""
+    terms = []
+    seen = False
+    for st in sorted([n for n in A.body_nodes(fn) if isinstance(n, ast.stmt)], key=lambda n: (n.lineno, n.col_offset)):
+        if isinstance(st, (ast.Assign, ast.AnnAssign)):
+            tg = st.targets[0] if isinstance(st, ast.Assign) else st.target
+            if isinstance(tg, ast.Tuple) and st.value is not None:
+                for k_, e_ in enumerate(tg.elts):
+                    if isinstance(e_, ast.Name) and e_.id == name:
+                        seen = True
+                        terms = [("list", ast.Subscript(value=st.value, slice=ast.Constant(value=k_), ctx=ast.Load()))]
+            if isinstance(tg, ast.Name) and tg.id == name and st.value is not None:
+                seen = True
+                terms = []
+
+                def rec(x):
+                    if isinstance(x, ast.BinOp) and isinstance(x.op, ast.Add):
+                        rec(x.left)
+                        rec(x.right)
+                    elif isinstance(x, ast.List):
+                        for e in x.elts:
+                            terms.append(("item", e))
+                    else:
+                        terms.append(("list", x))
+                rec(st.value)
+        elif isinstance(st, ast.AugAssign) and isinstance(st.target, ast.Name) and st.target.id == name and isinstance(st.op, ast.Add):
+            if isinstance(st.value, ast.List):
+                terms.extend(("item", e) for e in st.value.elts)
+            else:
+                terms.append(("list", st.value))
+        elif isinstance(st, ast.Expr) and isinstance(st.value, ast.Call) and isinstance(st.value.func, ast.Attribute) and isinstance(st.value.func.value, ast.Name) \
+                and st.value.func.value.id == name and len(st.value.args) == 1:
+            if st.value.func.attr == "append":
+                terms.append(("item", st.value.args[0]))
+            elif st.value.func.attr == "extend":
+                terms.append(("list", st.value.args[0]))
+            elif st.value.func.attr in ("insert", "pop", "remove", "clear", "sort", "reverse"):
+                return None
+    return terms if seen else None
